@@ -105,6 +105,7 @@ func (bw *BatchedWriter) KVStore() KVStore {
 
 // startBatchWriter starts the batch writer if it was not started yet.
 func (bw *BatchedWriter) startBatchWriter() {
+	verifYield("start-before-lock")
 	bw.startStopMutex.Lock()
 	if !bw.running.Load() {
 		bw.running.Store(true)
